@@ -63,6 +63,19 @@ def as_tensor(I, x, dtype="float"):
     raise Unsupported(f"array conversion of {type(x).__name__}")
 
 
+def sym_shape(size):
+    """a shape containing a symbolic dimension -> PWShape token (pointwise abstraction) else None"""
+    if isinstance(size, (tuple, list)) and any(isinstance(x, Sym) for x in size):
+        from .pointwise import PWShape
+        return PWShape(("dims",) + tuple(str(x.t) if isinstance(x, Sym) else x for x in size), tuple(size))
+    if isinstance(size, Sym):
+        from .pointwise import PWShape
+        return PWShape(("dims", str(size.t)), (size,))
+    if hasattr(size, "pw_uniform"):
+        return size
+    return None
+
+
 def shape_of(size):
     if size is None:
         return ()
@@ -263,6 +276,10 @@ def make_numpy(extra=None):
     A["isnan"] = Builtin("np.isnan", isnan)
 
     def zeros(I, a, k):
+        ps = sym_shape(a[0])
+        if ps is not None:
+            from .pointwise import PW
+            return PW(0, ps, ndim=len(ps.dims) if ps.dims else 2)
         shape = shape_of(a[0])
         dt = k.get("dtype", a[1] if len(a) > 1 else None)
         isb = isinstance(dt, BuiltinType) and "bool" in dt.name
@@ -273,6 +290,10 @@ def make_numpy(extra=None):
     A["zeros"] = Builtin("np.zeros", zeros)
 
     def ones(I, a, k):
+        ps = sym_shape(a[0])
+        if ps is not None:
+            from .pointwise import PW
+            return PW(1, ps, ndim=len(ps.dims) if ps.dims else 2)
         shape = shape_of(a[0])
         dt = k.get("dtype", a[1] if len(a) > 1 else None)
         isb = dt is not None and (isinstance(dt, BuiltinType) and "bool" in dt.name)
@@ -283,6 +304,10 @@ def make_numpy(extra=None):
     A["ones"] = Builtin("np.ones", ones)
 
     def full(I, a, k):
+        ps = sym_shape(a[0])
+        if ps is not None:
+            from .pointwise import PW
+            return PW(a[1], ps, ndim=len(ps.dims) if ps.dims else 2)
         shape = shape_of(a[0])
         n = 1
         for s in shape:
@@ -342,6 +367,55 @@ def make_numpy(extra=None):
             raise Unsupported("column_stack of non-1d columns")
         return Tensor((n, len(cols)), [c.get((i,)) for i in range(n) for c in cols])
     A["column_stack"] = Builtin("np.column_stack", column_stack)
+
+    def ones_like(I, a, k):
+        x = a[0]
+        if hasattr(x, "pw_map"):
+            return x.pw_map(I, lambda v: 1)
+        t = as_tensor(I, x)
+        return Tensor(t.shape, [1] * t.size)
+    A["ones_like"] = Builtin("np.ones_like", ones_like)
+
+    def divide(I, a, k):
+        x, y = a[0], a[1]
+        out, where = k.get("out"), k.get("where")
+        if where is None:
+            return ops.binop(I, "/", x, y)
+        # np.divide(x, y, out=o, where=w): o[w] = x[w]/y[w], elsewhere o keeps its value
+        if hasattr(x, "pw_map") or hasattr(y, "pw_map") or hasattr(where, "pw_map"):
+            from .pointwise import PW
+            rx = x.rep if isinstance(x, PW) else x
+            ry = y.rep if isinstance(y, PW) else y
+            rw = where.rep if isinstance(where, PW) else where
+            ro = out.rep if isinstance(out, PW) else out
+            base = next(v for v in (x, y, where, out) if isinstance(v, PW))
+            wz = to_z3(rw, "bool")
+            yz = to_z3(ry, "real")
+            I.path.oblige(I.ob_name("noraise", "divide-by-zero->inf"), z3.Implies(wz, yz != 0), kind="noraise", exc="inf")
+            q = z3.If(wz, to_z3(rx, "real") / yz, to_z3(ro, "real"))
+            res = base.like(mk(q))
+            if isinstance(out, PW):
+                out.rep = res.rep
+                return out
+            return res
+        raise Unsupported("np.divide(where=) on fixed arrays")
+    A["divide"] = Builtin("np.divide", divide)
+
+    def broadcast_to(I, a, k):
+        x = a[0]
+        if hasattr(x, "pw_map"):
+            ps = sym_shape(a[1])
+            from .pointwise import PW
+            return PW(x.rep, ps if ps is not None else x.shape, ndim=2)
+        raise Unsupported("broadcast_to of a fixed array")
+    A["broadcast_to"] = Builtin("np.broadcast_to", broadcast_to)
+
+    def std(I, a, k):
+        x = a[0]
+        if hasattr(x, "np_std"):
+            return x.np_std(I, a[1] if len(a) > 1 else k.get("axis"))
+        raise Unsupported("np.std of a fixed array")
+    A["std"] = Builtin("np.std", std)
 
     A["sum"] = Builtin("np.sum", np_sum)
     A["mean"] = Builtin("np.mean", np_mean)
